@@ -62,6 +62,28 @@ pub struct KnownFindings {
     pub findings: Vec<KnownFinding>,
 }
 
+/// Seed-mode traces: the run is identified by (property, VERIF_SEED, run index, tier) and
+/// regenerated on replay (used for crashes, hangs and sanitizer reports).
+pub struct Trace0;
+
+impl Trace0 {
+    pub fn seed(prop: &str, verif_seed: u64, idx: u64, class: &str, msg: &str, sanitizer: &str, tier: &str) -> Trace {
+        Trace {
+            property: prop.into(),
+            violation: Some(class.into()),
+            message: Some(msg.into()),
+            verif_seed,
+            run_index: idx,
+            run_seed: derive(verif_seed, prop_num(prop) as u64, idx),
+            mode: "seed".into(),
+            config: Config { ctor: Ctor::WithHasher, mode: crate::stubs::HashMode::Good, salt: 0, max_size: 0, universe: 0, prefill: 0, prefill_vh: 0 },
+            ops: vec![],
+            sanitizer: if sanitizer.is_empty() { None } else { Some(sanitizer.into()) },
+            tier: Some(tier.into()),
+        }
+    }
+}
+
 pub fn root_dir() -> PathBuf {
     if let Some(r) = std::env::var_os("LRUSIM_ROOT") {
         return PathBuf::from(r);
@@ -216,7 +238,7 @@ impl<'e> Worker<'e> {
     }
 
     fn mk_trace(&self, mode: &str, idx: u64, seed: u64, cfg: &Config, ops: Vec<Op>) -> Trace {
-        Trace { property: self.prop.clone(), violation: None, message: None, verif_seed: self.verif_seed, run_index: idx, run_seed: seed, mode: mode.into(), config: cfg.clone(), ops }
+        Trace { property: self.prop.clone(), violation: None, message: None, verif_seed: self.verif_seed, run_index: idx, run_seed: seed, mode: mode.into(), config: cfg.clone(), ops, sanitizer: None, tier: Some(if self.thorough { "thorough".into() } else { "quick".into() }) }
     }
 
     fn note_cfg(&mut self, cfg: &Config) {
@@ -231,7 +253,7 @@ impl<'e> Worker<'e> {
     fn unit_generated(&mut self, idx: u64, seed: u64) {
         if self.wa.is_some() {
             // write-ahead: the seed identifies the run
-            let t = self.mk_trace("seed", idx, seed, &Config { ctor: Ctor::WithHasher, mode: crate::stubs::HashMode::Good, salt: 0, max_size: 0, universe: 0, prefill: 0, prefill_vh: 0 }, vec![]);
+            let t = Trace0::seed(&self.prop, self.verif_seed, idx, "", "", "", if self.thorough { "thorough" } else { "quick" });
             self.wa_write(&t);
         }
         let (trace, out) = run_generated(self.env, &self.prop, self.thorough, self.verif_seed, idx, seed);
@@ -405,9 +427,13 @@ pub fn replay_main(path: &str) -> i32 {
     println!("replaying {} (property {}, expected violation class '{}', {} ops, mode {})", path, trace.property, class, trace.ops.len(), trace.mode);
     let out = match trace.mode.as_str() {
         "seed" => {
+            let thorough = trace.tier.as_deref() == Some("thorough");
+            if let Some(san) = &trace.sanitizer {
+                return crate::sanitize::replay(&trace.property, if thorough { "thorough" } else { "quick" }, trace.verif_seed, trace.run_index, san, path);
+            }
             // regenerate from the seed (used for crashes / hangs, where no concrete trace survived)
             let known = load_known();
-            let mut w = Worker { env: &env, prop: trace.property.clone(), pbit, thorough: false, verif_seed: trace.verif_seed, known, res: WorkerResult::default(), digests: vec![], states: vec![], no_min: true, wa: None, max_viol: 3 };
+            let mut w = Worker { env: &env, prop: trace.property.clone(), pbit, thorough, verif_seed: trace.verif_seed, known, res: WorkerResult::default(), digests: vec![], states: vec![], no_min: true, wa: None, max_viol: 3 };
             w.unit(trace.run_index);
             for v in &w.res.violations {
                 println!("  violation [{}] {}: {}", v.property, v.class, v.msg);
@@ -692,6 +718,65 @@ pub fn check_main(prop: &str, tier: &str) -> i32 {
         }
     }
 
+    // remove replay files that were not kept (several workers may have hit the same class)
+    for v in total.violations.iter() {
+        if !confirmed.iter().any(|c| c.replay == v.replay) {
+            let _ = std::fs::remove_file(&v.replay);
+        }
+    }
+
+    // ---------------- sanitizer / scheduler tiers
+    let mut san = serde_json::Map::new();
+    let ncpu = std::thread::available_parallelism().map(|n| n.get()).unwrap_or(4).min(16);
+    if prop == "C19" && std::env::var_os("LRUSIM_NO_MIRI").is_none() {
+        let (programs, seeds_per, nthreads, ops) = if thorough { (96, 16, 3, 14) } else { (6, 8, 3, 10) };
+        let m = crate::threads::miri_phase(verif_seed, programs, seeds_per, nthreads, ops, ncpu.min(if thorough { 16 } else { 6 }));
+        for v in &m.violations {
+            let parts: Vec<&str> = v.splitn(3, '|').collect();
+            if parts.len() == 3 {
+                confirmed.push(VRec { property: prop.into(), class: parts[0].into(), msg: parts[1].into(), replay: parts[2].into(), run_index: 0, steps: 0 });
+            }
+        }
+        san.insert("miri_reader_thread_programs".into(), json!(m.programs));
+        san.insert("miri_schedules".into(), json!(m.schedules));
+        san.insert("miri_threads_per_program".into(), json!(nthreads));
+        if let Some(e) = &m.error {
+            println!("note: the Miri reader-thread phase could not run ({}); only the fingerprint oracle decided this run", e);
+            san.insert("miri_unavailable".into(), json!(e));
+        }
+    }
+    if thorough && matches!(prop, "C06" | "C07" | "C12" | "C16" | "C17") && std::env::var_os("LRUSIM_NO_SANITIZERS").is_none() {
+        let asan_units: u64 = match prop {
+            "C16" => 6_000,
+            "C17" => 1_200,
+            _ => 24_000,
+        };
+        let a = crate::sanitize::asan_phase(prop, "quick", verif_seed, asan_units, ncpu as u64);
+        for (class, msg, path) in &a.violations {
+            confirmed.push(VRec { property: prop.into(), class: class.clone(), msg: msg.clone(), replay: path.clone(), run_index: 0, steps: 0 });
+        }
+        san.insert("asan_units".into(), json!(a.runs));
+        san.insert("asan_wall_s".into(), json!(a.wall_s));
+        if let Some(e) = &a.error {
+            println!("note: the ASan phase could not run ({})", e);
+            san.insert("asan_unavailable".into(), json!(e));
+        }
+        let miri_units: u64 = match prop {
+            "C16" | "C17" => 16,
+            _ => 48,
+        };
+        let m = crate::sanitize::miri_phase(prop, "quick", verif_seed, miri_units, ncpu, Duration::from_secs(240));
+        for (class, msg, path) in &m.violations {
+            confirmed.push(VRec { property: prop.into(), class: class.clone(), msg: msg.clone(), replay: path.clone(), run_index: 0, steps: 0 });
+        }
+        san.insert("miri_units".into(), json!(m.runs));
+        san.insert("miri_wall_s".into(), json!(m.wall_s));
+        if let Some(e) = &m.error {
+            println!("note: the Miri phase could not run ({})", e);
+            san.insert("miri_unavailable".into(), json!(e));
+        }
+    }
+
     // report
     let wall = t0.elapsed().as_secs_f64();
     for (class, n) in &total.known_hits {
@@ -743,6 +828,7 @@ pub fn check_main(prop: &str, tier: &str) -> i32 {
             "faults_planned_but_not_reached": total.fault_unfired,
             "known_findings_hit": total.known_hits,
             "workers": nworkers,
+            "sanitizer_passes": san,
             "batch_digest": format!("{:016x}", total.digest),
         },
         "assumptions": [
